@@ -13,7 +13,7 @@ ASSUMPTIONS = common.ASSUME_QR
 REQUIRED = ['evaluations', 'encode_observed', 'symbols_decoded', 'mode:qr:numeric', 'mode:qr:alphanumeric',
             'mode:qr:byte', 'mode:qr:kanji', 'mode:qr:hanzi', 'mode:micro:numeric', 'mode:micro:byte',
             'mode:micro:kanji', 'mode:micro:alphanumeric', 'mode:qr:multi']
-TIMEOUT = {'quick': 900, 'thorough': 5400}
+TIMEOUT = {'quick': 3600, 'thorough': 21600}
 
 
 def core_cases():
